@@ -13,7 +13,7 @@ EXPLANATION = (
     "writes are additionally dominated by is_valid()==true; lookups use the wire id on the parser "
     "argument's own map; V5/V7 parsers cannot name parser state and reach no write; no static state, "
     "no parser constructed or defaulted on any parse path; the template-id namespace is kept single "
-    "(a write of id k to one map removes k from the sibling map)."
+    "(a write of id k to one map removes k from the sibling map); no other parser field is written on the parse path."
 )
 ASSUMPTIONS = [
     "HashMap/BTreeMap::insert and Extend::extend overwrite an existing key (std contract)",
@@ -102,6 +102,7 @@ def run(ctx, env):
     ctx.rule("R6.3", "each contains_key / get uses the wire id argument as key and a field of the function's own parser argument as receiver")
     ctx.rule("R6.4", "V5/V7 parsers cannot name parser state (signature) and reach no cache write in the call graph")
     ctx.rule("R6.5", "no static / thread-local state; no NetflowParser / V9Parser / IPFixParser constructed or defaulted in any body reachable from the parse roots; parse path passes only reborrows of self's sub-parsers")
+    ctx.rule("R6.7", "the template maps are the only history-dependent parser state: any other field of NetflowParser / V9Parser / IPFixParser is never written by a body reachable from the parse roots")
     ctx.rule("R6.6", "single template-id namespace per protocol: every write of id k into one map is paired with removal of k from the sibling map (else a stale definition of the other kind survives)")
     cf = cache_fields(prog)
     for adt in PARSER_ADTS:
@@ -227,6 +228,15 @@ def run(ctx, env):
                     ctx.ob("R6.5", b.path, "subparser-borrow:%s" % pl["p"][-1]["name"], ok, "sub-parser borrowed from %s" % ("self" if ok else "something other than self"), site=site(s["span"]))
     ctx.floor("R6.5", "dispatcher", "sub-parser borrows", nsub, 2)
 
+    # R6.7 no other history-dependent state
+    extra = extra_state_writes(prog, parse_bodies)
+    for (adt, fld), info in sorted(extra.items()):
+        ctx.ob("R6.7", adt, "extra-state:%s" % fld, not info["writes"],
+               ("parser field %s.%s : %s is written on the parse path at %s — decoding may now depend on history outside the template maps (memo / counter / last-used cache), which no rule here tracks"
+                % (adt.rsplit("::", 1)[-1], fld, info["ty"][:80], info["writes"][:3])) if info["writes"]
+               else "field %s.%s is never written on the parse path (configuration only)" % (adt.rsplit("::", 1)[-1], fld))
+    ctx.ob("R6.7", "parser-state", "state-inventory", True,
+           "parser state = template maps %s + sub-parsers + allowed_versions%s" % (dict((k.rsplit("::", 1)[1], v) for k, v in cf.items()), (" + unwritten extra fields %s" % sorted(f for (_, f) in extra)) if extra else ""))
     # R6.6 single namespace
     by_adt = {}
     for w in ca.writes:
